@@ -181,10 +181,22 @@ def run_both(drv, case):
     return obs, obs
 
 
+def same_value_form(x):
+    """content is compared by VALUE: the two IEEE zeros are one value (numpy's == and array_equal say so, and so does the
+    property: "no value drifts"); everything else stays bit-exact, so a drift of one ulp is still a difference"""
+    if isinstance(x, dict):
+        if x == {"f": "8000000000000000"}:
+            return {"f": "0000000000000000"}
+        return {k: same_value_form(v) for k, v in x.items()}
+    if isinstance(x, list):
+        return [same_value_form(v) for v in x]
+    return x
+
+
 def strip_sel(g):
     if "tree" in g:
-        return g["tree"]
-    return g
+        return same_value_form(g["tree"])
+    return same_value_form(g)
 
 
 def oracle(case, obs):
